@@ -1,5 +1,6 @@
 # -*- coding: utf-8 -*-
 import numpy
+import scipy.linalg
 from ..liouvillespace.rates.ratematrix import RateMatrix
 
 class PopulationPropagator:
@@ -145,14 +146,10 @@ class PopulationPropagator:
             # initial condition
             U0 = numpy.eye(N)
             
-            # diagonalization of the rate matrix
-            Kd, SS = numpy.linalg.eig(self.KK)
-            S1 = numpy.linalg.inv(SS)
-
-            
-            # calculating exp(KK*step)
-            expKd_step = numpy.dot(SS,numpy.dot(
-                    numpy.diag(numpy.exp(Kd*timeaxis.step)),S1))
+            # calculating exp(KK*step); a rate matrix is in general not
+            # normal and it can be defective (e.g. a chain with equal rates),
+            # so the exponential is not calculated by diagonalization
+            expKd_step = scipy.linalg.expm(self.KK*timeaxis.step)
 
             #
             # If the starts of the time axes do not coincide, and the
@@ -173,8 +170,7 @@ class PopulationPropagator:
                 # otherwise new exp(KK*dt) has to be calculated and applied
                 else:
                     dt = timeaxis.start - self.timeAxis.start
-                    expKd_dt = numpy.dot(SS,numpy.dot(
-                            numpy.diag(numpy.exp(Kd*dt)),S1))
+                    expKd_dt = scipy.linalg.expm(self.KK*dt)
                     U0 = numpy.dot(expKd_dt,U0)
                     
             # initial condition at the start of the submitted timeaxis            
